@@ -348,6 +348,24 @@ def r6_passthrough(rep, ctx):
             rep.check(ok, "C10.R6", "_ValueGenerator.__iter__:%s" % norm(ast.unparse(y)), "yields (left, right) made of the operands themselves or their own elements",
                       "the generator yields %s" % show(t, 120), node=y, fn=it)
     rep.floor("C10.R6", "yields", ny, 2)
+    # element-wise pairing is only for non-numpy operands: every yield that iterates an operand is reached only
+    # where IsNumpy() is known to be false (an ndarray is also "not a list", so a branch tested before the numpy
+    # test would pair a whole ndarray with the elements of the other operand)
+    from ..facts import facts as nfacts
+    icfg = CFG(it.node)
+    NUMPY = ("call", ("field", "IsNumpy"), (), ())
+    tests_numpy = any(ires.term(icfg.ast[n_]) == NUMPY for n_ in icfg.nodes("test"))
+    if not tests_numpy:
+        raise AnalysisError("_ValueGenerator.__iter__: no test of self.IsNumpy() found (the numpy dispatch changed)")
+    for y in own_nodes(it.node):
+        if isinstance(y, (ast.Yield, ast.YieldFrom)) and y.value is not None:
+            t = ires.term(y.value)
+            iterates = isinstance(y, ast.YieldFrom) or any(x[0] == "elem" for x in walk(t))
+            if not iterates:
+                continue
+            known_false = any(k == "truth" and not pos and ires.term(l_) == NUMPY for k, l_, r_, pos in nfacts(icfg, icfg.node_of(y)))
+            rep.check(known_false, "C10.R6", "_ValueGenerator.__iter__:non-numpy:%s" % norm(ast.unparse(y)), "an operand is iterated element by element only when no operand is an ndarray",
+                      "`%s` is reached without IsNumpy() being known false: with an ndarray on one side the whole array is paired with single elements of the other operand" % norm(ast.unparse(y)), node=y, fn=it)
 
 
 def r7_getvalues(rep, ctx):
